@@ -895,6 +895,14 @@ class RingAlg(Alg):
     self.sqrt_side.append(a)
     return g
 
+  def sqrt_hint(self, root, reason):
+    """contract-supplied fact  sqrt(root^2) = root  for a polynomial `root` that the contract's precondition makes non-negative (e.g. cos q on |q| < pi/2).
+    Sound exactly when root >= 0; the reason is recorded with the hints used."""
+    r = self.normal(root)
+    a = self.normal(self._mul(r, r))
+    self.sqrt_decl[frozenset(a.t.items())] = r
+    self.hints_used.append(('sqrt((%s)^2) = %s' % (self.show(r, 4), self.show(r, 4)), True, reason))
+
   def _cmp(self, op, a, b):
     d = self.normal(self._sub(a, b))
     if isinstance(d, Ratio):
